@@ -508,7 +508,10 @@ class GetTID(MvccSpec):
 
         def ts_ctor(cc, interp, args, kwargs, node):
             cc.event('TimeStamp', tuple(args))
-            return timestamp.c_timestamp(cc, interp, args, kwargs, node)
+            r = timestamp.c_timestamp(cc, interp, args, kwargs, node)
+            if isinstance(r, VRef) and 'raw' in cc.obj(r).f:
+                cc.ghost['stamp_raw'] = cc.obj(r).f['raw']
+            return r
         hk = {'opaque_isinstance': isinst, 'opaque_method': ometh, 'opaque_attr': oattr,
               'construct:ext:persistent.TimeStamp.TimeStamp': ts_ctor}
         timestamp.install(hk)
@@ -536,10 +539,22 @@ class GetTID(MvccSpec):
             utc = c.ghost.get('utc_fields')
             ok = bool(ts) and utc is not None and len(ts[0][1]) == 6 and \
                 all(x is y for x, y in zip(ts[0][1][:5], utc[:5]))
-            return [('datetime-converted-through-its-UTC-time-tuple', ok),
-                    ('no-local-calendar-field-used',
-                     not any(e[0] == 'local-field-read' for e in c.events)),
-                    ('returns-8-bytes', isinstance(r, VBytes) and r.conc_len() == 8)]
+            out = [('datetime-converted-through-its-UTC-time-tuple', ok),
+                   ('no-local-calendar-field-used',
+                    not any(e[0] == 'local-field-read' for e in c.events)),
+                   ('returns-8-bytes', isinstance(r, VBytes) and r.conc_len() == 8)]
+            raw = c.ghost.get('stamp_raw')
+            if isinstance(r, VBytes) and r.conc_len() == 8 and raw is not None:
+                # `at` is INCLUSIVE (the bound is the next stamp after the moment), `before` is the moment itself -
+                # for datetimes exactly as for raw tids
+                if not isinstance(at, VNone):
+                    out.append(('at-datetime.exclusive-bound-is-the-next-stamp-after-the-moment',
+                                b8_eq_num(c, r, timestamp.LATER(raw))))
+                else:
+                    out.append(('before-datetime.bound-is-the-moment-itself', b8_eq_num(c, r, raw)))
+            else:
+                out.append(('bound-derived-from-the-converted-stamp', False))
+            return out
         return [Outcome('datetime', post=dt_post)]
 
 
